@@ -3346,10 +3346,13 @@ class SetInstance(object):
         if obj._status_ in del_statuses: throw_object_was_deleted(obj)
         if obj._vals_ is None: throw_db_session_is_over('read value of', obj, attr)
         setdata = obj._vals_.get(attr)
-        if setdata is None: setdata = obj._vals_[attr] = SetData()
+        if setdata is None: pass
         elif setdata.is_fully_loaded: return not setdata
         elif setdata: return False
         elif setdata.count is not None: return not setdata.count
+        cache = obj._session_cache_
+        if cache is None or not cache.is_alive: throw_db_session_is_over('read value of', obj, attr)
+        if setdata is None: setdata = obj._vals_[attr] = SetData()
         entity = attr.entity
         reverse = attr.reverse
         rentity = reverse.entity
@@ -3403,9 +3406,9 @@ class SetInstance(object):
         if obj._status_ in del_statuses: throw_object_was_deleted(obj)
         if obj._vals_ is None: throw_db_session_is_over('read value of', obj, attr)
         setdata = obj._vals_.get(attr)
-        if setdata is None: setdata = obj._vals_[attr] = SetData()
-        elif setdata.count is not None: return setdata.count
+        if setdata is not None and setdata.count is not None: return setdata.count
         if cache is None or not cache.is_alive: throw_db_session_is_over('read value of', obj, attr)
+        if setdata is None: setdata = obj._vals_[attr] = SetData()
         entity = attr.entity
         reverse = attr.reverse
         database = entity._database_
@@ -5466,9 +5469,10 @@ class Entity(object, metaclass=EntityMeta):
         if obj._status_ not in ('created', 'modified', 'marked_to_delete'):
             return
 
-        assert obj._save_pos_ is not None, 'save_pos is None for %s object' % obj._status_
         cache = obj._session_cache_
-        assert cache is not None and cache.is_alive and not cache.saved_objects
+        if cache is None or not cache.is_alive: throw_db_session_is_over('flush object', obj)
+        assert obj._save_pos_ is not None, 'save_pos is None for %s object' % obj._status_
+        assert not cache.saved_objects
         with cache.flush_disabled():
             obj._before_save_() # should be inside flush_disabled to prevent infinite recursion
                                 # TODO: add to documentation that flush is disabled inside before_xxx hooks
